@@ -5,8 +5,9 @@
  *   init <nloops> <loop-of-h0> <loop-of-h1> ...
  *   script <k> <op>:<h>[:<sig>] ...      ops of the k-th signal callback (global count)
  *   start hN sig | oneshot hN sig | stop hN | close hN | raise sig | run L
- *   runraise L sig     one loop iteration during which `sig` is raised from a uv_check
- *                      callback, i.e. after the poll phase and before the closing phase
+ *   runraise L sig [op:h[:sig] ...]
+ *                      one loop iteration during which `sig` is raised (and the ops are performed)
+ *                      from a uv_check callback, i.e. after the poll phase, before the closing phase
  *
  * The RB tree orders by loop pointer, then handle pointer: loops and handles are
  * malloc'ed up front, the pointers sorted, and id i is the i-th smallest address, so
@@ -25,6 +26,7 @@ static uv_loop_t* loops[MAXL];
 static uv_signal_t* hs[MAXH];
 static uv_check_t chk[MAXL];
 static int chk_sig;
+static char chk_ops[1024];
 static int hloop[MAXH];
 static int freed[MAXH];
 static int nl, nh;
@@ -39,6 +41,7 @@ static int cmpp(const void* a, const void* b) {
 }
 static int idof(uv_signal_t* h) { for (int i = 0; i < nh; i++) if (hs[i] == h) return i; return -1; }
 static void signal_cb(uv_signal_t* h, int signum);
+static void run_script(const char* text);
 
 static void close_cb(uv_handle_t* h) {
   int i = idof((uv_signal_t*) h);
@@ -64,14 +67,16 @@ static int do_op(const char* op, int i, int sig, int* rc) {
 static void signal_cb(uv_signal_t* h, int signum) {
   unsigned k = ncb++;
   printf("cb signal h%d %d\n", idof(h), signum);
-  if (k < MAXK && script[k]) {
-    char* copy = strdup(script[k]); char* save; char* w;
-    for (w = strtok_r(copy, " \n", &save); w; w = strtok_r(NULL, " \n", &save)) {
-      char op[16]; int i, sig = 0, rc;
-      if (sscanf(w, "%15[a-z]:%d:%d", op, &i, &sig) >= 2) do_op(op, i, sig, &rc);
-    }
-    free(copy);
+  if (k < MAXK && script[k]) run_script(script[k]);
+}
+
+static void run_script(const char* text) {
+  char* copy = strdup(text); char* save; char* w;
+  for (w = strtok_r(copy, " \n", &save); w; w = strtok_r(NULL, " \n", &save)) {
+    char op[16]; int i, sig = 0, rc;
+    if (sscanf(w, "%15[a-z]:%d:%d", op, &i, &sig) >= 2) do_op(op, i, sig, &rc);
   }
+  free(copy);
 }
 
 static void do_raise(int sig) {
@@ -82,7 +87,7 @@ static void do_raise(int sig) {
 }
 
 static void obs(void);
-static void check_cb(uv_check_t* c) { uv_check_stop(c); printf("check\n"); obs(); do_raise(chk_sig); }
+static void check_cb(uv_check_t* c) { uv_check_stop(c); printf("check\n"); obs(); do_raise(chk_sig); run_script(chk_ops); }
 
 static int known_sig(int sig) { for (int j = 0; j < NSIGS; j++) if (SIGS[j] == sig) return 1; return 0; }
 
@@ -126,8 +131,9 @@ int main(void) {
       if (!known_sig(sig)) { printf("bad-op\n"); continue; }
       do_raise(sig);
       obs();
-    } else if (sscanf(line, "runraise %d %d", &i, &sig) == 2 && i >= 0 && i < nl && known_sig(sig)) {
+    } else if (sscanf(line, "runraise %d %d %n", &i, &sig, &off) == 2 && i >= 0 && i < nl && known_sig(sig)) {
       chk_sig = sig;
+      snprintf(chk_ops, sizeof chk_ops, "%s", line + off);
       uv_check_start(&chk[i], check_cb);
       uv_run(loops[i], UV_RUN_NOWAIT);
       printf("ran %d\n", i);
